@@ -28,7 +28,7 @@ def case(args):
     planted = {}
     for n, t in enumerate(chosen):
         for port, st, path in t["outs"]:
-            planted[path] = "PLANTED-%d-%d\n" % (i, n)
+            planted[path] = "" if rng.random() < 0.25 else "PLANTED-%d-%d\n" % (i, n)     # an existing output may be empty
     sp.files.update(planted)
     model = t3.run_model(sp.text())
     sc = t3.Scratch()
